@@ -25,6 +25,7 @@ THEOREMS = [
     "C28_rows_exact",
     "C28_same_final_state",
     "C28_idempotent",
+    "C28_listing_order_irrelevant",
     "C28_failed_not_recorded",
     "C28_shipped_converges",
     "C28_shipped_same_final_state",
@@ -896,7 +897,7 @@ def run(env: Env) -> Outcome:
         fams.append(shipped_family())
         fams += corpus_families()
         rng = random.Random(env.rng.randrange(1 << 30))
-        n = min(env.budget(100, 1500), 4000)  # (deep mode multiplies by 10: keep the widened search inside the time limit)
+        n = min(env.budget(80, 1500), 4000)  # (deep mode multiplies by 10: keep the widened search inside the time limit)
         for i in range(n):
             fams.append(gen_family(rng, wild=(i % 2 == 1), nstarts=3 if env.tier == "quick" else 4))
         # header parser on its own: random first lines
